@@ -238,6 +238,34 @@ Definition clean_stop (s : kstep) : bool :=
   | BuildI _ _ => true
   end.
 
+(* ------------------------------------------------------------------ the weakest hypothesis *)
+(* ninja's dirty test is per STATEMENT: a statement runs as soon as ONE of its outputs is dirty, and
+   then rewrites all of them.  So a half-written output is taken for up to date only if NO output of
+   its statement gives a reason to run that lasts until the statement's turn comes: a stale log entry
+   (HistFailDefs.StaleEntry), or -- [wh], for the invocation that starts in this state -- an output
+   that is missing. *)
+Definition StmtReason (wh : bool) (st : hstate) (e : edge) : Prop :=
+  exists o, In o (ei_outs (g_edge g e)) /\
+            (StaleEntry g wh st e o \/ (wh = true /\ h_disk st o = None)).
+
+Definition stmt_reasonb (wh : bool) (st : hstate) (e : edge) : bool :=
+  existsb (fun o => stale_entryb g wh st e o || (wh && negb (is_some (h_disk st o))))
+          (ei_outs (g_edge g e)).
+
+Definition TaintOkS (wh : bool) (st : hstate) : Prop :=
+  forall e o, ei_phony (g_edge g e) = false -> In o (ei_outs (g_edge g e)) ->
+              tainted st o = true -> StmtReason wh st e.
+
+Definition taint_okSb (wh : bool) (st : hstate) : bool :=
+  edges_all g (fun e =>
+    ei_phony (g_edge g e)
+    || negb (existsb (tainted st) (ei_outs (g_edge g e)))
+    || stmt_reasonb wh st e).
+
+(* THE hypothesis of recovery, a boolean on the state in which ninja is started; implied by
+   HistFailDefs.taint_safe (which asks a stale entry of every tainted output itself) *)
+Definition taint_safe_stmt (st : hstate) : bool := taint_okSb true st.
+
 (* the outputs of the killed statement that did not get a new log entry *)
 Definition unrecorded_outs (e : edge) (a : crash_at) : list node :=
   match a with
@@ -316,6 +344,19 @@ Example kill2 :
   taints k2 = [false; false; false; false] /\
   benign_kstep cmd g st4 (BuildK T cp2) = true /\
   h_trace r2 = [2; 1; 1; 2; 1; 0]%nat /\ contents r2 = cleans r2.
+Proof. vm_compute. repeat split; reflexivity. Qed.
+
+(* ---- kill 2 again: the re-run of the compile is killed when BOTH outputs are half written.  x.o
+        holds garbage under its NEW, valid entry: the per-output hypothesis [taint_safe] fails, but
+        x.map's entry is still older than b.src, the statement has a reason to run
+        ([taint_safe_stmt]), and the next build repairs both *)
+Definition k2b := apply_kstep cmd g k2 (BuildK T (mkCP 1 (KWrote 2 garbage))).
+Definition r2b := apply_kstep cmd g k2b (KStep (Plain (Build T))).
+Example kill2_again :
+  content_of k2b 3%nat = Some 903%N /\ content_of k2b 4%nat = Some 904%N /\
+  taints k2b = [false; true; true; false] /\
+  taint_safe g k2b = false /\ taint_safe_stmt g k2b = true /\
+  contents r2b = cleans r2b /\ taints r2b = [false; false; false; false].
 Proof. vm_compute. repeat split; reflexivity. Qed.
 
 (* ---- kill 3: a.src is edited so that gen.h does NOT change; the restat command is killed after
